@@ -163,8 +163,27 @@ def kms_classify(inp, out):
     return ks
 
 
+
+def c13_overlap(out):
+    """did two operations of different goroutines overlap in time in history `out`?"""
+    if not out.startswith("h="):
+        return False
+    evs = []
+    for e in out[2:].split(" lin=")[0].split(";"):
+        try:
+            g = int(e.split(":")[0])
+            t = e.split("@")[1].split("=")[0].split("-")
+            evs.append((g, int(t[0]), int(t[1])))
+        except Exception:
+            return False
+    for i, a in enumerate(evs):
+        for b in evs[i + 1:]:
+            if a[0] != b[0] and a[1] < b[2] and b[1] < a[2]:
+                return True
+    return False
+
 ALL_EXTRACT = [{"args": ["states"], "out": "States.lean"}, {"args": ["keytypes"], "out": "KeyTypes.lean"},
-               {"args": ["panicsites"], "out": "PanicSites.lean"}]
+               {"args": ["panicsites"], "out": "PanicSites.lean"}, {"args": ["locks"], "out": "Locks.lean"}]
 
 PROPS = {
     "C11": {
@@ -348,6 +367,36 @@ PROPS = {
                          "agent start-up, transports, retries and scheduling inside one agent are not modelled (partial)"],
         "assumptions": ["didexchange invitations only (out-of-band, implicit and legacy-connection invitations are not driven)",
                         "waiting for a state is polling with a 4 s limit"],
+    },
+    "C13": {
+        "lean_files": ["AriesVerif/C13/Locks.lean", "AriesVerif/C13/Spec.lean", "AriesVerif/C13/Interleave.lean",
+                       "AriesVerif/C13/Drv.lean"],
+        "lake_targets": ["AriesVerif"],
+        "race": True,
+        "level": "proof",
+        "classify": lambda inp, out: ["target:" + inp.split("|")[0], "goroutines:" + inp.split("|")[1],
+                                     "ops-per-goroutine:" + inp.split("|")[2],
+                                     "overlap:" + ("yes" if c13_overlap(out) else "no"),
+                                     "lin:" + ("NONE" if out.endswith("lin=NONE") else "search-gave-up" if out.endswith("lin=GAVE-UP") else
+                                              "witness" if " lin=" in out else out.split(" ")[0])],
+        "nontrivial": lambda inp, out: c13_overlap(out),
+        "thorough_seeds": 1,
+        "case_timeout": 60,
+        "rule": "G (2-5) goroutines run short operation lists on ONE shared instance of mem / cachedstore / batchedstore / "
+                "formattedstore providers, localkms, the wallet session manager and the message pickup inbox, the binary being "
+                "built with the Go race detector and GOMAXPROCS varied 1..16; every operation is timestamped (invoke, return); a "
+                "search proposes a sequential order and the Lean side validates it against its sequential specification "
+                "(Lin.validate, proved sound); a race report, a hang or an unexplained history is a violation; non-trivial = two "
+                "operations of different goroutines overlapped in time",
+        "trusted_base": ["the Go race detector (happens-before, only on the schedules that ran)",
+                         "the lockset extractor (harness/cmd/extract/locks.go): syntactic, one function body at a time, "
+                         "helper functions documented to run with the lock held are listed by hand in C13/Locks.lean",
+                         "the Go runtime scheduler is not modelled: Interleave.lean proves the check-then-act shapes for every "
+                         "interleaving of the model's atomic steps, the real schedules are only sampled (partial)"],
+        "assumptions": ["logical clock taken with atomic adds around each call: an operation's real extent lies inside its recorded one",
+                        "composite wallet.Open / Close (session + KMS + store life cycle) is not an atomic operation of the "
+                        "specification; the session manager's createSession / closeSession are",
+                        "schedules are not reproducible: a replay file carries the observed history, re-running it re-samples"],
     },
     "C14": {
         "lean_files": ["AriesVerif/C14/Model.lean", "AriesVerif/C14/Props.lean", "AriesVerif/C14/Drv.lean"],
